@@ -449,7 +449,8 @@ def id_maps(draw, inst):
     pools = [ID_POOL, ID_POOL, ID_POOL]
     for side in range(3):
         # ids beyond CPython's small-int cache (identity vs equality on ints), per side
-        if pct(draw) < 22:
+        # (projects more often: project numbers are compared in the most places)
+        if pct(draw) < (40 if side == 1 else 22):
             pools[side] = BIG_ID_POOL
     smap = list(draw(st.permutations(pools[0])))[:inst['n1']]
     pmap = list(draw(st.permutations(pools[1])))[:inst['n2']]
